@@ -245,6 +245,35 @@ func genC16(r *rand.Rand, tier string, st *Stats) []Case {
 			}
 		}
 	}
+	// 2b. \x followed by EVERY pair of printable ASCII characters (other than the quote and the backslash): the
+	// decision "two hex digits follow" is exercised on its whole two-character domain, so a lenient test
+	// (signs, underscores, spaces, digits-then-letter ...) cannot hide
+	for c1 := byte(32); c1 < 127; c1++ {
+		for c2 := byte(32); c2 < 127; c2++ {
+			if c1 == '\\' || c2 == '\\' {
+				continue
+			}
+			q := "'"
+			if c1 == '\'' || c2 == '\'' {
+				q = "\""
+				if c1 == '"' || c2 == '"' {
+					continue
+				}
+			} else if (int(c1)+int(c2))%2 == 0 && c1 != '"' && c2 != '"' {
+				q = "\""
+			}
+			body := "\\x" + string([]byte{c1, c2}) + "z"
+			b := specDecode(body)
+			if !isASCII(b) {
+				st.Counts["badhex-skipped-nonascii"]++
+				continue
+			}
+			lit := q + body + q
+			id := fmt.Sprintf("bp%d.%d", c1, c2)
+			cases = append(cases, litCase(id+".self", lit, b, b, "badhex-pair"))
+			st.Counts["badhex-pair"]++
+		}
+	}
 	// 3. random mixed ASCII strings with mixed spellings
 	nr := sizes(tier, 1200, 80000)
 	for i := 0; i < nr; i++ {
